@@ -12,8 +12,40 @@ META = {
 }
 
 
+REWRITE_SKIP = {'named_args_reordered'}          # known finding of C01, not re-reported through rewrites
+
+
+def rewritten_schemas(tier, seed):
+  """Meaning-preserving rewrites of the core / aggregation / sugar schemas: the same spec must hold."""
+  import random
+  from vlib import variants
+  rnd = random.Random(seed + 5)
+  out = []
+  for s in lgen.ALL:
+    if not set(s['tags']) & {'C01', 'C02', 'C11'} or s['name'] in REWRITE_SKIP or s.get('workflow') or s.get('ordered'):
+      continue
+    rs = variants.rewrites(s['text'], s.get('tables') or {})
+    if tier == 'quick' and len(rs) > 2:
+      rs = rnd.sample(rs, 2)
+    for kind, text in rs:
+      d = dict(s)
+      d['name'] = '%s~%s' % (s['name'], kind)
+      d['text'] = text
+      d['cols'] = {}
+      d['cap'] = {'quick': 40, 'thorough': 300}
+      d['variant'] = kind
+      out.append(d)
+  return out
+
+
 def run(tier, seed):
-  return [schemas.run_schemas(lgen.by_tag('C01'), tier, seed, 'C01-schemas'),
+  rw = rewritten_schemas(tier, seed)
+  r = schemas.run_schemas(rw, tier, seed, 'C01-rewrites')
+  r['rule'] = ('core / aggregation / sugar schemas rewritten by meaning-preserving transformations (every extensional '
+               'table read through one more injectible predicate; integer literals of bodies replaced by calls of '
+               'constant functions; the first two conjuncts of each body in parentheses; `~(~T(args))` appended after '
+               'a positive literal T(args)): the original spec comprehension must hold (%d rewritten programs)' % len(rw))
+  return [schemas.run_schemas(lgen.by_tag('C01'), tier, seed, 'C01-schemas'), r,
           monrun.run_monitors('C01', tier, seed)]
 
 
@@ -22,4 +54,4 @@ def replay(spec):
     r = monrun.run_monitors('C01', 'quick', 0)
     print('             ', [v['replay']['clause'] for v in r['violations']] or 'holds')
     return not r['violations']
-  return schemas.replay_schema(spec, lgen.by_tag('C01'))
+  return schemas.replay_schema(spec, lgen.by_tag('C01') + rewritten_schemas('thorough', 0))
